@@ -15,11 +15,23 @@ RID = {-1: -0.5, 0: 0.0, 1: 0.5, 2: 1.0, 3: 1.5}
 LQ = {-1: -0.1, 0: 0.0, 1: 0.5, 2: 1.0, 3: 1.5}
 
 
+MODE_FORMS = {"k": 0}
+
+
 def mode_arg(m):
+    """the API mode argument for abstract mode m. Valid modes are passed in the three forms the library accepts
+    (_mode_in_range: int, numpy integer, integral float), cycling deterministically"""
     if m == 90:
         return True
     if m == 91:
         return 1.5
+    if isinstance(m, int) and 0 <= m < 80:
+        MODE_FORMS["k"] += 1
+        k = MODE_FORMS["k"] % 7
+        if k == 3:
+            return np.int64(m)
+        if k == 5:
+            return float(m)
     return m
 
 
@@ -379,6 +391,24 @@ def _check_read(c, ev, res, spec_c, order, name, a, ins, expect_ok, flt, P, stat
                             out.append(("input_not_rejected", "simulate([valid, %s]) computed amplitudes for an input that is one mode too short" % (short,)))
                         except Exception:  # noqa: BLE001
                             pass
+            # the other classes of invalid arguments named by the property: they must be refused (by State or by simulate), never computed
+            if expect_ok and exp:
+                o0 = sorted(exp)[0]
+                bad_calls = [("an output with a different photon number", lambda: emu.Simulator(c).simulate(state(ins), outputs=[lw.State([o0[0] + 1] + list(o0[1:]))])),
+                             ("an output of the wrong length", lambda: emu.Simulator(c).simulate(state(ins), outputs=[lw.State(list(o0) + [0])])),
+                             ("a valid output followed by one with a different photon number",
+                              lambda: emu.Simulator(c).simulate(state(ins), outputs=[state(o0), lw.State([o0[0] + 1] + list(o0[1:]))]))]
+                if len(ins) >= 1:
+                    bad_calls += [("a negative occupation", lambda: emu.Simulator(c).simulate(lw.State([-1] + list(ins[1:])))),
+                                  ("a non-integer occupation", lambda: emu.Simulator(c).simulate(lw.State([ins[0] + 0.5] + list(ins[1:])))),
+                                  ("a valid input followed by one with a different photon number",
+                                   lambda: emu.Simulator(c).simulate([state(ins), lw.State([ins[0] + 1] + list(ins[1:]))], outputs=[state(o0)]))]
+                for what, call in bad_calls:
+                    try:
+                        call()
+                        out.append(("input_not_rejected", "Simulator.simulate computed a result for %s (input %s)" % (what, list(ins))))
+                    except Exception:  # noqa: BLE001
+                        pass
         elif name == "sdist":
             L, table = res
             table = table if isinstance(table, dict) else {}
@@ -638,6 +668,7 @@ def replay(prog, objs, expected_circ=None, expected_sem=None, params=NOPARAMS, p
       valid_call_raised, arg_mutated, reject_changed_state, rewrite_changed, rewrite_structure,
       and, at the end, the conformance clauses of `conforms` for every live object."""
     out = []
+    MODE_FORMS["k"] = len(prog) + sum(len(e) for e in prog)        # deterministic per program
     for i, ev in enumerate(prog):
         if ev[1] in ("simulate", "sdist", "analyze", "quick"):
             continue            # read actions are executed after the final conformance check (they need the index map)
